@@ -437,8 +437,10 @@ def kind_cases():
         "resistor": [{"R": 4.7}], "conductance": [{"G": 0.25}], "impedance": [{"Z": [3.0, -4.0]}], "capacitor": [{"C": 0.5}], "inductance": [{"L": 0.2}],
         "lamp": [{"V_ref": 12.0, "P_ref": 6.0}], "switch_open": [{}], "switch_closed": [{}], "labeled_wire": [{}],
         "dc_v": [{"V": 1.5}], "dc_i": [{"I": -0.5}], "complex_v": [{"V": [1.0, 2.0]}], "complex_i": [{"I": [0.5, -1.0]}],
-        "ac_v": [{"V": 2.0, "w": 1.0, "phi": 0.5}, {"V": 2.0, "w": 1.0, "phi": 30.0, "deg": True}, {"V": 2.0, "w": 1.0, "phi": 0.5, "sin": True}, {"V": 2.0, "w": 1.0, "phi": 30.0, "deg": True, "sin": True}],
-        "ac_i": [{"I": 2.0, "w": 1.0, "phi": 0.5}, {"I": 2.0, "w": 1.0, "phi": 30.0, "deg": True}, {"I": 2.0, "w": 1.0, "phi": 0.5, "sin": True}, {"I": 2.0, "w": 1.0, "phi": 30.0, "deg": True, "sin": True}],
+        "ac_v": [{"V": 2.0, "w": 1.0, "phi": 90.0, "deg": True, "sin": True}, {"V": 2.0, "w": 1.0, "phi": 1.5707963267948966, "sin": True}, {"V": 2.0, "w": 1.0, "phi": 0.0},
+                 {"V": 2.0, "w": 1.0, "phi": 0.5}, {"V": 2.0, "w": 1.0, "phi": 30.0, "deg": True}, {"V": 2.0, "w": 1.0, "phi": 0.5, "sin": True}, {"V": 2.0, "w": 1.0, "phi": 30.0, "deg": True, "sin": True}],
+        "ac_i": [{"I": 2.0, "w": 1.0, "phi": 90.0, "deg": True, "sin": True}, {"I": 2.0, "w": 1.0, "phi": 0.0},
+                 {"I": 2.0, "w": 1.0, "phi": 0.5}, {"I": 2.0, "w": 1.0, "phi": 30.0, "deg": True}, {"I": 2.0, "w": 1.0, "phi": 0.5, "sin": True}, {"I": 2.0, "w": 1.0, "phi": 30.0, "deg": True, "sin": True}],
     }
     for k in ("rect", "tri", "saw"):
         P[k + "_v"] = [{"V": 1.0, "w": 1.0, "phi": 0.3}, {"V": 1.0, "w": 1.0, "phi": 45.0, "deg": True}]
